@@ -94,6 +94,7 @@ fn p_c08() -> Profile {
     let mut p = Profile::base();
     p.blob = Tri::Always;
     p.blob_ingest = true;
+    p.shared_blob_prelude = true;
     p.w[W_INGEST] = 4;
     p.filter_fn = Tri::Maybe;
     p.w[W_SNAP_OPEN] = 5;
@@ -110,6 +111,7 @@ fn p_c09() -> Profile {
     let mut p = Profile::base();
     p.blob = Tri::Always;
     p.wild_weak_deletes = true;
+    p.shared_blob_prelude = true;
     p.filter_fn = Tri::Maybe;
     p.w[W_MAJOR] = 8;
     p.w[W_LEVELED] = 10;
